@@ -1,3 +1,157 @@
 import Nv.OracleIO
-/-! oracle_c19 — stub (model not built yet): answers `bad-op` to every line. -/
-def main : IO Unit := Nv.oracleMain (fun (_ : Unit) _ => ((), "bad-op")) ()
+import Nv.Model.C19
+import Nv.Gen.C19
+/-!
+oracle_c19 — line protocol (the configuration is the one regenerated from the source, `Nv.Gen.C19.cfg`):
+  `new mock=<0|1> len=<n> maxc=<int> maxv=<int> ttlx=<0|1> minb=<0|1> winr=<0|1> smsfail=<0|1>` → `new`
+  `send <area> <phone>` → `ok h<k>` | `smsfail h<k>` | `err:tooFreq` | `err:countLimit`
+  `verify <area> <phone> <cur|wrong|c<k>|lit:<text>> <hcur|h<k>|hx|h->` →
+        `ok` | `err:notExist` | `err:retryLimit` | `err:notMatch` | `err:hashNotMatch` | `err:timeout`
+  `nonce <base> <len> <v0,v1,…|->` → `out=<string>` | `panic`
+  `cover <base>` → `covered=<sorted distinct chars of genNonce base 1 [v], v < 2·|base|+2>` | `panic`
+  `sample <base> <len> <count>` → `len-ok=1 alphabet-ok=1 covered=<sorted distinct reachable chars>` | `panic`
+`cur`/`hcur` = code / hash of the last accepted send to this (area, phone) pair (script-level bookkeeping,
+independent of the key format).  `_` stands for the empty string in <area>, <phone>, <base>.  `k` numbers the accepted sends of the script from 1.
+-/
+open Nv Nv.C19
+
+structure OState where
+  inited : Bool
+  pr : Params
+  st : State
+  cur : List ((Str × Str) × (Code × Nat))  -- code and hash of the last accepted send per (area, phone) pair
+  sends : List (Nat × Code)          -- code of accepted send k
+
+def OState.init : OState := ⟨false, ⟨false, 0, 0, 0, false, false, false, false⟩, State.init, [], []⟩
+
+def tok (s : String) : Str := if s == "_" then [] else s.toList
+
+/-- strict decimal: 1…9 digits, nothing else (the Go runner parses the same way) -/
+def natOf (l : Str) : Option Nat :=
+  if l.length = 0 || l.length > 9 || !l.all Char.isDigit then none
+  else some (l.foldl (fun acc c => acc * 10 + (c.toNat - '0'.toNat)) 0)
+def intOf : Str → Option Int
+  | '-' :: rest => (natOf rest).map (fun n => - (n : Int))
+  | l => (natOf l).map (fun n => (n : Int))
+
+def field (name : String) (w : String) : Option Str :=
+  let p := (name ++ "=").toList
+  let l := w.toList
+  if l.take p.length == p then some (l.drop p.length) else none
+
+def boolOf (l : Str) : Option Bool := if l == ['1'] then some true else if l == ['0'] then some false else none
+
+def parseNew (ws : List String) : Option Params :=
+  match ws with
+  | [a, b, c, d, e, f, g, h] => do
+    let mock ← (field "mock" a).bind boolOf
+    let len ← (field "len" b).bind natOf
+    let maxc ← (field "maxc" c).bind intOf
+    let maxv ← (field "maxv" d).bind intOf
+    let ttlx ← (field "ttlx" e).bind boolOf
+    let minb ← (field "minb" f).bind boolOf
+    let winr ← (field "winr" g).bind boolOf
+    let sf ← (field "smsfail" h).bind boolOf
+    pure ⟨mock, len, maxc, maxv, ttlx, minb, winr, sf⟩
+  | _ => none
+
+def lookupPair (k : Str × Str) : List ((Str × Str) × (Code × Nat)) → Option (Code × Nat)
+  | [] => none
+  | (k', c) :: rest => if k = k' then some c else lookupPair k rest
+
+def lookupSend (k : Nat) : List (Nat × Code) → Option Code
+  | [] => none
+  | (k', c) :: rest => if k = k' then some c else lookupSend k rest
+
+def noCode : Code := .lit ['x']
+
+/-- `cur` with its first character replaced by 'x' (or "x"): never equals a generated code -/
+def wrongOf : Code → Code
+  | .lit (_ :: t) => .lit ('x' :: t)
+  | .lit [] => .lit ['x']
+  | .sym _ => .lit ['x']
+
+def parseCode (o : OState) (pair : Str × Str) (w : String) : Option Code :=
+  let l := w.toList
+  if w == "cur" then some (((lookupPair pair o.cur).map (·.1)).getD noCode)
+  else if w == "wrong" then some (wrongOf (((lookupPair pair o.cur).map (·.1)).getD (.lit [])))
+  else if l.take 4 == "lit:".toList then some (.lit (l.drop 4))
+  else match l with
+    | 'c' :: rest => (natOf rest).map (fun k => (lookupSend k o.sends).getD noCode)
+    | _ => none
+
+def parseHash (o : OState) (pair : Str × Str) (w : String) : Option Nat :=
+  if w == "hx" || w == "h-" then some 0
+  else if w == "hcur" then some (((lookupPair pair o.cur).map (·.2)).getD 0)
+  else match w.toList with
+    | 'h' :: rest => (natOf rest).map (fun k => if k ≤ o.st.nsent then k else 0)
+    | _ => none
+
+def showSend : SendResult → String
+  | .ok h => s!"ok h{h}" | .smsFail h => s!"smsfail h{h}" | .tooFreq => "err:tooFreq" | .countLimit => "err:countLimit"
+
+def showVerify : VerifyResult → String
+  | .ok => "ok" | .notExist => "err:notExist" | .retryLimit => "err:retryLimit" | .notMatch => "err:notMatch"
+  | .hashNotMatch => "err:hashNotMatch" | .timeout => "err:timeout"
+
+def insertSorted (c : Char) : Str → Str
+  | [] => [c]
+  | d :: rest => if c.toNat < d.toNat then c :: d :: rest else if c = d then d :: rest else d :: insertSorted c rest
+
+def sortDedup (l : Str) : Str := l.foldl (fun acc c => insertSorted c acc) []
+
+def parseVals (w : String) : Option (List Nat) :=
+  if w == "-" then some [] else (w.splitOn ",").mapM (fun s => natOf s.toList)
+
+def coverOf (b : NonceBound) (base : Str) : Option Str :=
+  (List.range (2 * base.length + 2)).foldl (fun acc v =>
+    match acc, genNonce b base 1 [v] with
+    | some l, some out => some (l ++ out)
+    | _, _ => none) (some [])
+
+def step (o : OState) (line : String) : OState × String :=
+  let cfg := Nv.Gen.C19.cfg
+  match words line with
+  | "new" :: rest =>
+    match parseNew rest with
+    | some pr => ({ OState.init with inited := true, pr := pr }, "new")
+    | none => (OState.init, "bad-op")
+  | ["send", a, p] =>
+    if !o.inited then (o, "bad-op") else
+    let (a, p) := (tok a, tok p)
+    let r := send cfg o.pr o.st a p
+    match r.2.accepted with
+    | some k =>
+      let code := genCode o.pr p k
+      ({ o with st := r.1, cur := ((a, p), (code, k)) :: o.cur, sends := (k, code) :: o.sends }, showSend r.2)
+    | none => ({ o with st := r.1 }, showSend r.2)
+  | ["verify", a, p, cw, hw] =>
+    if !o.inited then (o, "bad-op") else
+    let (a, p) := (tok a, tok p)
+    match parseCode o (a, p) cw, parseHash o (a, p) hw with
+    | some code, some h =>
+      let r := verify cfg o.pr o.st a p code h
+      ({ o with st := r.1 }, showVerify r.2)
+    | _, _ => (o, "bad-op")
+  | ["nonce", b, n, vs] =>
+    match intOf n.toList, parseVals vs with
+    | some n, some vals =>
+      match genNonce cfg.nonceBound (tok b) n.toNat vals with
+      | some out => (o, "out=" ++ String.ofList out)
+      | none => (o, "panic")
+    | _, _ => (o, "bad-op")
+  | ["cover", b] =>
+    match coverOf cfg.nonceBound (tok b) with
+    | some l => (o, "covered=" ++ String.ofList (sortDedup l))
+    | none => (o, "panic")
+  | ["sample", b, n, cnt] =>
+    let base := tok b
+    match natOf n.toList, natOf cnt.toList with
+    | some n, some cnt =>
+      if base.length = 0 || n = 0 || cnt = 0 || n * cnt < 400 * base.length then (o, "bad-op")
+      else if boundOf cfg.nonceBound base.length ≤ 0 then (o, "panic")
+      else (o, "len-ok=1 alphabet-ok=1 covered=" ++ String.ofList (sortDedup (reachable cfg.nonceBound base)))
+    | _, _ => (o, "bad-op")
+  | _ => (o, "bad-op")
+
+def main : IO Unit := oracleMain step OState.init
